@@ -60,6 +60,27 @@ CLAIMS['C20'] = {
   'text': "Contract on the verbatim body of colvar::collect_cvc_gradients: the gradients a script query returns are collected from exactly the enabled components, once each; a component switched off at run time contributes nothing.",
   'note': "The scripting dispatch (colvarscript::run, argument helpers, config queue) is n/d.",
   'design_ref': '§4 C20'}
+CLAIMS['C10'] = {
+  'text': "Contracts on the statements that consume frequency/stride parameters (colvar::parse_analysis runAve and corrFunc blocks, colvarbias_meta::init newHillFrequency, head of colvarbias_meta::update_bias), with get_keyval delivering ANY value: no integer division by zero, a zero stride is an error, a metadynamics bias is history dependent only with a positive hill frequency and never evaluates the schedule otherwise.",
+  'note': "Statement ranges (not whole functions) are sliced; other parameters (widths, sizes, atom ranges, ABF list lengths, OPES), roll-back after a rejected configuration and non-finite floats are n/d.",
+  'design_ref': '§4 C10'}
+CLAIMS['C04'] = {
+  'text': "Contracts on the verbatim bodies of colvarbias_abf::update (up to 'End of ABF proper') and calc_biasing_force, symbolic reals: each force sample is attributed to the bin the variable occupied when the force acted (previous call's bin unless the variable's total force is of the current step), accumulated at most once and only on eligible steps inside the grid; the applied force is zero outside the grid or with applyBias off, otherwise the smoothed mean force, made zero-mean for one periodic variable BEFORE the maxForce cap.",
+  'note': "Bounded (1-2 variables); grids, update_system_force, smoothing ramp and replica sharing are stubs; the tail of update() (output prefix, UI estimator, calc_energy), projected ABF, CZAR and the arithmetic of the running mean are n/d.",
+  'design_ref': '§4 C04', 'category': 'other'}
+CLAIMS['C05'] = {
+  'text': "Deposition schedule of metadynamics as contracts on the head of colvarbias_meta::update_bias and on colvarbias::can_accumulate_data: in one call at most one hill is created, and exactly when the bias is history dependent, the step is not the repeated first step of a segment, and the absolute step is a multiple of newHillFrequency.",
+  'note': "Hill frequency fixed to 10 in the schedule task (constant divisor); hill values, weights, well-tempered scaling, grids, rebinning and keepHills are n/d (Gaussian sums over exp are outside reach).",
+  'design_ref': '§4 C05'}
+CLAIMS['C09'] = {
+  'text': "Contracts on the verbatim bodies of colvarmodule::getline (LF and CRLF lines deliver the same text, a CR-only line is empty), colvarparse::check_braces (OK iff opening and closing braces from the start position balance) and to_lower_cppstr (ASCII folding), over a bounded std::string stand-in.",
+  'note': "All tasks are bounded stand-ins (strings of at most 6 characters), hence level 'other', not proof. key_lookup, check_keywords, typed value extraction and whole-parser layout independence are n/d.",
+  'design_ref': '§4 C09', 'category': 'other'}
+CLAIMS['C18'] = {
+  'text': "Contracts on the verbatim bodies of colvar::cvc::dist2, dist2_lgrad, dist2_rgrad and wrap with symbolic reals: value and gradient use the same minimum-image displacement d = (x1-x2) - floor((x1-x2)/P + 1/2) P for any number of periods (gradient = 2d, distance = d*d), non-periodic components use the plain difference, and wrap maps x to x - floor((x-c)/P + 1/2) P around the wrap centre.",
+  'note': "Structural (uninterpreted arithmetic): that the formula selects the nearest image numerically is real analysis and not decided. colvarvalue's vector/quaternion metrics and interpolation are n/d.",
+  'design_ref': '§4 C18'}
 NOT_APPLICABLE = {
+ 'C02': "values against an independent evaluation, invariance under rigid motion and optimality of the fitted rotation are real-analysis statements over long floating-point chains (sqrt, acos, Jacobi eigen-solver); no contract within CBMC's reach expresses them (DESIGN.md §4 C02)",
  'C12': "quantifies over thread schedules; sequential contract verification (CBMC dfcc) cannot express it and the C++ front end has no OpenMP (DESIGN.md §4 C12)",
 }
